@@ -34,7 +34,10 @@ INTERNAL_WORDS = ["name", "values", "metadata", "patches", "labels", "digests", 
 
 def shards(tier):
     q = tier == "quick"
-    return [{"name": f"doc{i}", "examples": 450 if q else 8000} for i in range(14 if q else 16)]
+    out = [{"name": f"doc{i}", "examples": 450 if q else 8000} for i in range(13 if q else 14)]
+    # coverage-guided campaigns (atheris/libFuzzer mutating the bytes the same strategy decodes; DESIGN 2.4)
+    out += [{"name": f"fuzz{i}", "kind": "fuzz", "runs": 300 if q else 6000} for i in range(1 if q else 2)]
+    return out
 
 
 names = st.one_of(st.sampled_from(INTERNAL_WORDS), st.sampled_from(INTERNAL_WORDS),
@@ -93,6 +96,18 @@ def ops(draw, ws):
 @st.composite
 def strategy_(draw, shard):
     ws = draw(small_ws())
+    if draw(st.integers(0, 2)) == 0:
+        # names outside ASCII (a channel renamed consistently, or a measurement)
+        suffix = draw(st.sampled_from(["_\u03bc\u03bc", "\u00e9", "_\u03c4\u03c4", "\u0304", "_\u00b5"]))
+        ws = copy.deepcopy(ws)
+        if draw(st.booleans()):
+            old = ws["channels"][0]["name"]
+            ws["channels"][0]["name"] = old + suffix
+            for o in ws["observations"]:
+                if o["name"] == old:
+                    o["name"] = old + suffix
+        else:
+            ws["measurements"][0]["name"] += suffix
     nlab = draw(st.integers(1, 3))
     labels = draw(st.lists(st.from_regex(r"[a-zA-Z0-9_]{1,4}", fullmatch=True), min_size=nlab, max_size=nlab))
     npat = draw(st.integers(1, 6))
@@ -153,6 +168,10 @@ def corruptions(obj, path=()):
         yield ("number_plus_one", "number", len(path), path, None)
     elif isinstance(obj, str):
         yield ("string_edit", "string", len(path), path, None)
+        yield ("string_non_ascii_appended", "string", len(path), path, None)
+        yield ("string_combining_mark_appended", "string", len(path), path, None)
+        if any(ord(c) > 127 for c in obj):
+            yield ("string_non_ascii_replaced", "string", len(path), path, None)
 
 
 def corrupt(doc, kind, path):
@@ -179,6 +198,12 @@ def corrupt(doc, kind, path):
         parent[last] = parent[last] + 1
     elif kind == "string_edit":
         parent[last] = parent[last] + "x"
+    elif kind == "string_non_ascii_appended":
+        parent[last] = parent[last] + "\u00b5"
+    elif kind == "string_combining_mark_appended":
+        parent[last] = parent[last] + "\u0304"
+    elif kind == "string_non_ascii_replaced":
+        parent[last] = "".join(chr(ord(c) + 1) if ord(c) > 127 else c for c in parent[last])
     return d
 
 
